@@ -10,7 +10,7 @@ DISTINCT_RULE = (
     "under sweeps of max_trade_count / max_live_trade_count / multi_order_trades / reset_seconds / place_reset_seconds; distinct = "
     "(#trades<=3, #live<=3, multi_order_trades, trade already known) cells at accepted placements plus status paths of trades"
 )
-RULES = ["recount", "trade-status", "limit"]
+RULES = ["recount", "trade-status", "limit", "refusal"]
 MINIMA = {"quick": {"rule_recount": 20000, "rule_limit": 3000, "rule_trade-status": 20000}, "thorough": {"rule_recount": 800000}}
 ASSUMPTIONS = [
     "a trade counts as placed once one of its orders was accepted by place_order(execute=True)",
